@@ -27,22 +27,21 @@ theorem frameItem_tcpFrame (hdr : TcpHeader) (pdu : Bytes) (h : pdu.length < 655
   simp [frameItem, this]
 
 /-- the two decoder facts the chunking theorem needs, for MBAP -/
-def tcpFraming : Framing aduDecoder where
-  Valid := ValidTcp
-  item := frameItem
-  complete := by
-    rintro s f rest ⟨hdr, pdu, hl, rfl⟩
-    refine ⟨(), ?_⟩
-    have h1 := aduDecode_complete hdr pdu rest hl
-    have h2 := frameItem_tcpFrame hdr pdu hl
-    show ((aduDecode (tcpFrame hdr pdu ++ rest)).1, (), (aduDecode (tcpFrame hdr pdu ++ rest)).2) = _
-    rw [h1, h2]
-  waits := by
-    rintro s f p ⟨hdr, pdu, hl, rfl⟩ hp hne
-    refine ⟨(), ?_⟩
-    have h1 := aduDecode_prefix_waits hdr pdu p hl hp hne
-    show ((aduDecode p).1, (), (aduDecode p).2) = _
-    rw [h1]
+def tcpFraming : Framing aduDecoder :=
+  Framing.ofStrict ValidTcp frameItem
+    (by
+      rintro s f rest ⟨hdr, pdu, hl, rfl⟩
+      refine ⟨(), ?_⟩
+      have h1 := aduDecode_complete hdr pdu rest hl
+      have h2 := frameItem_tcpFrame hdr pdu hl
+      show ((aduDecode (tcpFrame hdr pdu ++ rest)).1, (), (aduDecode (tcpFrame hdr pdu ++ rest)).2) = _
+      rw [h1, h2])
+    (by
+      rintro s f p ⟨hdr, pdu, hl, rfl⟩ hp hne
+      refine ⟨(), ?_⟩
+      have h1 := aduDecode_prefix_waits hdr pdu p hl hp hne
+      show ((aduDecode p).1, (), (aduDecode p).2) = _
+      rw [h1])
 
 theorem tcpFrame_ne_nil (hdr : TcpHeader) (pdu : Bytes) : tcpFrame hdr pdu ≠ [] := by
   simp [tcpFrame, be16]
